@@ -25,6 +25,8 @@ def build_all(names):
 
 def run_stream(st, tier, seed, judge):
     """build the stream's driver(s) from the current tree, run all shards driver|judge in parallel"""
+    if st.get('kind') == 'pair':
+        return run_pair_stream(st, tier, seed, judge)
     out = {'mism': [], 'samples': [], 'crashes': [], 'total': {}, 'evidence': {}}
     t0 = time.time()
     exe, err = build(st['driver'])
@@ -68,6 +70,91 @@ def run_stream(st, tier, seed, judge):
     return out
 
 
+def run_pair_stream(st, tier, seed, judge):
+    """relational stream: two builds of the same driver run on the same inputs; outputs are compared line by line
+    by st['compare'](ref_fields, alt_fields) -> None | reason.  The reference build's lines are also judged by the model
+    when st.get('judge_ref')."""
+    import subprocess, tempfile
+    out = {'mism': [], 'samples': [], 'crashes': [], 'total': {}, 'evidence': {}}
+    t0 = time.time()
+    ref, err1 = build(st['driver'])
+    alt, err2 = build(st['driver2'])
+    if ref is None or alt is None:
+        out['crashes'].append('driver does not compile against the current tree:\n%s' % ((err1 or err2) or '')[-3000:])
+        out['evidence'] = {'stream': st['name'], 'error': 'compile failed'}
+        return out
+    jobs = []
+    for run in st['runs'][tier]:
+        shards = run.get('shards', 1)
+        for i in range(shards):
+            jobs.append([a.replace('{seed}', str(seed)) for a in run['args']] + ['--seed', str(seed), '--shard', str(i), str(shards)])
+    cmpf = st['compare']
+    tot = dict(n=0, nontrivial=0, distinct_nontrivial=0, mismatches=0, bad=0)
+    cfgs, ops = set(), set()
+
+    def one(args):
+        res = {'mism': [], 'n': 0, 'nt': 0, 'samples': [], 'crash': None, 'keys': set(), 'jm': []}
+        try:
+            with tempfile.TemporaryFile(dir=uvlib.BUILD) as e1, tempfile.TemporaryFile(dir=uvlib.BUILD) as e2:
+                p1 = subprocess.run([ref] + args, stdout=subprocess.PIPE, stderr=e1, timeout=st.get('timeout', 1500))
+                p2 = subprocess.run([alt] + args, stdout=subprocess.PIPE, stderr=e2, timeout=st.get('timeout', 1500))
+        except subprocess.TimeoutExpired:
+            res['crash'] = 'timeout: ' + ' '.join(args)
+            return res
+        if p1.returncode != 0 or p2.returncode != 0:
+            res['crash'] = 'driver exit %d / %d: %s' % (p1.returncode, p2.returncode, ' '.join(args))
+        l1 = [l for l in p1.stdout.decode(errors='replace').splitlines() if l[:1].isdigit()]
+        l2 = [l for l in p2.stdout.decode(errors='replace').splitlines() if l[:1].isdigit()]
+        if len(l1) != len(l2):
+            res['crash'] = (res['crash'] or '') + ' line counts differ: %d vs %d' % (len(l1), len(l2))
+        for a, b in zip(l1, l2):
+            fa, fb = a.split(' '), b.split(' ')
+            res['n'] += 1
+            res['keys'].add((fa[0], fa[1], fa[2]))
+            if fa[:4] != fb[:4]:
+                res['crash'] = 'case streams out of step: %s | %s' % (a, b)
+                break
+            why = cmpf(fa, fb)
+            if fa[4] != fb[4] or why:
+                res['nt'] += 1
+            if why:
+                c = uvlib.parse_case(b)
+                c['model'] = fa[4]; c['why'] = why
+                if len(res['mism']) < 2000:
+                    res['mism'].append(c)
+                else:
+                    res['more'] = res.get('more', 0) + 1
+            if len(res['samples']) < 2 and res['n'] % 1000 == 1:
+                res['samples'].append('%s  ||  %s' % (a, fb[4]))
+        if st.get('judge_ref'):
+            pj = subprocess.run([judge, '--samples', '0'], input='\n'.join(l1) + '\n', stdout=subprocess.PIPE, text=True, timeout=st.get('timeout', 1500))
+            for line in pj.stdout.splitlines():
+                if line.startswith('M '):
+                    body, model = line[2:].rsplit(' => ', 1)
+                    c = uvlib.parse_case(body); c['model'] = model; c['why'] = 'reference build disagrees with the model'
+                    res['jm'].append(c)
+        return res
+
+    with cf.ThreadPoolExecutor(max_workers=max(1, NCPU // 2)) as ex:
+        for r in ex.map(one, jobs):
+            if r['crash']:
+                out['crashes'].append(r['crash'])
+            tot['n'] += r['n']; tot['nontrivial'] += r['nt']; tot['distinct_nontrivial'] += r['nt']
+            tot['mismatches'] += len(r['mism']) + r.get('more', 0) + len(r['jm'])
+            out['mism'] += r['mism'] + r['jm']
+            out['samples'] += r['samples'][:1]
+            for k in r['keys']:
+                cfgs.add('%s:%s' % (uvlib.FAMS.get(int(k[0]), k[0]), k[1])); ops.add(uvlib.OPS.get(int(k[2]), k[2]))
+    if tot['n'] == 0 and not out['crashes']:
+        out['crashes'].append('stream %s produced no cases' % st['name'])
+    out['total'] = tot
+    out['evidence'] = {'stream': st['name'], 'kind': 'pair', 'builds': [st['driver'], st['driver2']], 'cases': tot['n'],
+                       'differing_or_interesting': tot['nontrivial'], 'mismatches': tot['mismatches'],
+                       'configurations': sorted(cfgs), 'ops': sorted(ops), 'exhaustive': bool(st.get('exhaustive', {}).get(tier)),
+                       'what': st.get('what', ''), 'wall_s': round(time.time() - t0, 1)}
+    return out
+
+
 def replay_case(st, case_line, judge):
     import subprocess
     exe, err = build(st['driver'])
@@ -80,6 +167,8 @@ def replay_case(st, case_line, judge):
 
 
 DRIVERS = {
+    'posit_fastset_generic': {'src': 'drv_posit.cpp', 'flags': ['-DFASTSET']},
+    'posit_fastset_fast': {'src': 'drv_posit.cpp', 'flags': ['-DFASTSET', '-DFAST=1']},
     'posit_small': {'src': 'drv_posit.cpp', 'flags': ['-DNO_LARGE']},
     'posit_large': {'src': 'drv_posit.cpp', 'flags': ['-DNO_SMALL']},
     'posit_mid': {'src': 'drv_posit.cpp', 'flags': ['-DNO_LARGE', '-DNO_SMALL', '-DWITH_MID']},
@@ -115,7 +204,45 @@ def rnd(name, driver, group, quick, thorough, shards=8, what=''):
 NT = ('non-trivial = rounding/clamp/overflow/flush happened or a special operand took part; distinct = distinct case lines among '
       'those (hash set in the judge)')
 
+def cmp_same(fa, fb):
+    """builds must agree bit for bit; an operation one build does not offer (missing overload) is not a difference"""
+    if fa[4].startswith('?') or fb[4].startswith('?'):
+        return None
+    return None if fa[4] == fb[4] else 'builds differ'
+
+
 PLANS = {
+    'C17': {
+        'level': 'proof', 'coq': 'Properties_C17', 'pregen': ['gen_tables.py'],
+        'rule': 'every encoding of every small posit / cfloat / fixpnt / integer configuration (all <= 10 bits, posit also 12..16 bits in the thorough tier) '
+                'and structured samples of the large ones: sqrt(x) must equal the correctly rounded root for formats <= 16 bits and be one of the two '
+                'neighbours above; negative arguments, zero, inf, NaN/NaR per the property. non-trivial = all; distinct = distinct lines',
+        'assumptions': ['sqrt of a negative fixpnt/integer (documented exception) is not judged'],
+        'streams': [exh('posit_sqrt_exh', 'posit_small', 'sqrt'), rnd('posit_sqrt_rnd', 'posit_large', 'sqrt', 3000, 60000, shards=23),
+                    exh('fixpnt_sqrt_exh', 'fixpnt_small', 'sqrt'), rnd('fixpnt_sqrt_rnd', 'fixpnt_large', 'sqrt', 2000, 30000, shards=16),
+                    exh('integer_sqrt_exh', 'integer_small', 'sqrt'), rnd('integer_sqrt_rnd', 'integer_large', 'sqrt', 2000, 30000, shards=16)] +
+                   [exh('cfloat_sqrt_exh%d' % k, 'cfloat_s%d' % k, 'sqrt') for k in range(4)] +
+                   [rnd('cfloat_sqrt_rnd%d' % k, 'cfloat_s%d' % k, 'sqrt', 3000, 50000, shards=4) for k in (10, 11, 12)],
+    },
+    'C11': {
+        'level': 'translation_validation', 'coq': 'Properties_C11',
+        'rule': 'two builds of the same driver source (generic posit / POSIT_FAST_SPECIALIZATION) run on identical inputs and compared line by '
+                'line: all pairs x {+,-,*,/,6 comparisons}, all encodings x {reciprocal, abs, sqrt, ++, --, to float/double/int/long long}, '
+                'model-aimed native sources, for 2_0 3_0 3_1 4_0 8_0 8_1 8_2 (exhaustive) and 16_1 16_2 32_2 (structured sampling); the generic '
+                'build is also judged by the Coq model, which referees who is wrong. non-trivial = lines where the builds differ; table theorems: '
+                'generated from the specialised headers on every run',
+        'assumptions': ['operations a fast specialisation does not offer (missing/ambiguous overloads) are skipped, not counted as differences'],
+        'pregen': ['gen_tables.py'],
+        'streams': [
+            {'name': 'posit_fast_vs_generic_exh', 'kind': 'pair', 'driver': 'posit_fastset_generic', 'driver2': 'posit_fastset_fast', 'compare': cmp_same,
+             'judge_ref': True, 'what': 'fast vs generic, exhaustive on 2_0 3_0 3_1 4_0 8_0 8_1 8_2', 'exhaustive': {'quick': True, 'thorough': True},
+             'runs': {'quick': [dict(args=['--mode', 'exh', '--group', 'all1'], shards=16)], 'thorough': [dict(args=['--mode', 'exh', '--group', 'all1'], shards=16)]}},
+            {'name': 'posit_fast_vs_generic_rnd', 'kind': 'pair', 'driver': 'posit_fastset_generic', 'driver2': 'posit_fastset_fast', 'compare': cmp_same,
+             'judge_ref': True, 'what': 'fast vs generic, structured sampling on 16_1 16_2 32_2',
+             'runs': {'quick': [dict(args=['--mode', 'rnd', '--group', 'all1', '--count', '3000'], shards=3)],
+                      'thorough': [dict(args=['--mode', 'rnd', '--group', 'all1', '--count', '100000'], shards=3)]}},
+        ],
+    },
     'C01': {
         'level': 'proof', 'coq': 'Properties_C01',
         'rule': 'exhaustive: all encodings/pairs of 26 posit configs <= 8 bits x {add,sub,mul,div,rcp,neg,abs}; sampled: structured '
